@@ -3,6 +3,7 @@ package main
 // Symbolic execution of go/ssa function bodies (path enumeration, loops cut at invariants).
 
 import (
+	"runtime"
 	"sync"
 	"os"
 	"fmt"
@@ -477,6 +478,11 @@ func (x *Exec) havocValLike(st *State, old Val, hint string, t types.Type) Val {
 func (x *Exec) havocLike(st *State, old Val, obj int) Val {
 	switch o := old.(type) {
 	case T:
+		if os.Getenv("GOVC_DEBUG_HAVOC") != "" && strings.HasPrefix(o.So, "(Array") {
+			buf := make([]byte, 2048)
+			n := runtime.Stack(buf, false)
+			fmt.Fprintf(os.Stderr, "havoc of obj %d (%s):\n%s\n", obj, o.So, buf[:n])
+		}
 		return x.e.fresh("h", o.So)
 	case *StructV:
 		n := &StructV{Typ: o.Typ, F: make([]Val, len(o.F))}
